@@ -433,6 +433,18 @@ func tierOf(h *Harness, tier string) TierBounds {
 		}
 		b = t
 	}
+	// wall-clock budget per harness (a change that breaks a property can also
+	// multiply its schedules without producing a violation in this harness: the
+	// run then ends INCONCLUSIVE for it and goes on with the next harness)
+	if b.DeadlineS == 0 {
+		b.DeadlineS = 300
+		if tier == "thorough" {
+			b.DeadlineS = 3000
+		}
+		if v := os.Getenv("GOSYM_DEADLINE_S"); v != "" {
+			b.DeadlineS, _ = strconv.Atoi(v)
+		}
+	}
 	if b.MaxSteps == 0 {
 		b.MaxSteps = 2000000
 	}
